@@ -247,3 +247,8 @@ Definition c05_check (t ms : N) (fields : list field) (xs : list xdesc) : bool :
   forallb (fun i => (count_nat i ids =? (if wanted t (nth i fields nil_field) then 1 else 0))%nat)
           (seq 0 (length fields)) &&
   forallb (c05_request ms fields) xs.
+
+(* ---------- coil members of a request against a FC1/FC2 reply ---------- *)
+(* the reply holds 8 * (number of data bytes) coil positions, the first one is the coil at the
+   request's start address (MAP 6.1/6.2); a member is served iff its address is one of them *)
+Definition coil_inside (start nbits a : N) : bool := (start <=? a) && (a - start <? nbits).
